@@ -418,6 +418,8 @@ class Evaluator:
         d = dotted(n.func)
         if d == "isinstance" and len(n.args) == 2:
             return self.isinstance(self.eval(n.args[0], env), n.args[1], env)
+        if d in ("cast", "typing.cast") and len(n.args) == 2:
+            return self.eval(n.args[1], env)
         f = None
         if d is not None and d in env and callable(env[d]):
             f = env[d]
